@@ -31,7 +31,7 @@ RULE = ("(a) exactness cases: a recursive data class (Schema or DataClass base; 
         "work = counting-converter invocations and LINE steps. Violation <=> W(n+1)/W(n) > 1.9 for every n in 3..7 (a polynomial of "
         "degree <= 4 drops below 1.9 by n=6). Non-trivial (a) = |k-d| <= 1 or cyclic; (b) every curve; distinct = (links, positions, d, k) / curve id.")
 ASSUMPTIONS = [
-    "max_depth is declared in the class Options of every class of the recursive system (the documented usage); runtime Options passed to __from__ are not propagated into nested classes by design and are not judged",
+    "max_depth is declared in the class Options of every class of the recursive system, or given once as overriding runtime options (Options(max_depth=d, override=True)) to __from__; plain (non-overriding) runtime Options are not propagated into nested classes by design and are not judged",
     "data-class nesting depth of an input = number of nested data-class mappings on the deepest path (top level = 1)",
     "growth test is a bounded restatement of 'at most polynomial': depths 3..8, widths 10..1000; ratio threshold 1.9 separates degree<=4 polynomials from exponentials of base>=2",
     "work is counted deterministically (no wall clock); a point that exhausts 4e6 LINE steps is recorded as >= budget",
@@ -165,7 +165,9 @@ def make_case(i, rng, tier):
             path = [(("direct", 0) if lv % 2 == 0 else p) for lv, p in enumerate(path)]
         return {"kind": "exact", "base": rng.choice(["Schema", "Schema", "DataClass"]), "d": d, "k": k, "path": path,
                 "mutual": mutual, "cyclic": d is not None and rng.random() < 0.12,
-                "cyc_link": rng.choice(["opt", "direct", "lst", "dct", "uni", "tup"])}
+                "cyc_link": rng.choice(["opt", "direct", "lst", "dct", "uni", "tup"]),
+                # how the limit reaches the classes: their own Options, or overriding runtime options given to the entry point
+                "deliver": "override" if (d is not None and rng.random() < 0.3) else "class"}
     j = (i - N_EXACT[tier]) % 216
     FL = [{}, {"no_data_loss": True}, {"no_explicit_cast": True}, {"no_data_loss": True, "no_explicit_cast": True}]
     LEAVES = ["exact", "raw", "bad", "int-raw", "int-bad"]
@@ -197,7 +199,8 @@ def run_case(case, ctx):
         return run_curve(case, ctx)
     d, k, path = case["d"], case["k"], case["path"]
     try:
-        top, classes = declare(case["base"], d, {}, mutual=case["mutual"])
+        deliver = case.get("deliver", "class")
+        top, classes = declare(case["base"], d if deliver == "class" else None, {}, mutual=case["mutual"])
     except Exception as e:
         ctx.count("declaration_rejected:" + type(e).__name__)
         return
@@ -216,12 +219,17 @@ def run_case(case, ctx):
             else:
                 attach(levels[-1], case["cyc_link"], 0, levels[0], 1)
         steps = _S["steps"]
-        out = run(lambda: top.__from__(data) if case["base"] == "DataClass" else top(**data), steps=steps, limit=STEP_LIMIT if steps else None)
+        if deliver == "override":
+            from utype import Options
+            out = run(lambda: top.__from__(data, options=Options(max_depth=d, override=True)), steps=steps, limit=STEP_LIMIT if steps else None)
+        else:
+            out = run(lambda: top.__from__(data) if case["base"] == "DataClass" else top(**data), steps=steps, limit=STEP_LIMIT if steps else None)
         ctx.count("calls")
+        ctx.count("limit_delivered_by:" + deliver)
         links = tuple(p[0] for p in path)
         poss = tuple(str(p[1]) for p in path)
-        sig = (case["base"], case["mutual"], links, poss, d, k, cyc)
-        wit = {"base": case["base"], "mutual": case["mutual"], "max_depth": d, "input_depth": "cyclic" if cyc else k,
+        sig = (case["base"], case["mutual"], links, poss, d, k, cyc, deliver)
+        wit = {"base": case["base"], "mutual": case["mutual"], "max_depth": d, "limit_given_by": "class Options" if deliver == "class" else "__from__(options=Options(max_depth=d, override=True))", "input_depth": "cyclic" if cyc else k,
                "path": [f"{l}[{p}]" for l, p in path], "outcome": repr(out)}
         if out.kind == "steps":
             ctx.inconclusive_case("step budget exhausted in an exactness case")
